@@ -10,6 +10,8 @@ import (
 	"sort"
 	"strings"
 	"sync"
+
+	"github.com/ChrisTrenkamp/xsel"
 )
 
 // One generator line (spec/XGen.tla EmitLine): either a pool declaration or a
@@ -27,6 +29,8 @@ type GenCase struct {
 	Ctx int   `json:"ctx"`
 	E   *Expr `json:"e"`
 	R   Val   `json:"r"`
+	Env *Env  `json:"env,omitempty"` // overrides the line's environment
+	K   *Val  `json:"k,omitempty"`   // the recorded deviant value under the open known-finding switches
 }
 
 type Report struct {
@@ -147,7 +151,7 @@ func processDocLine(gl *GenLine, pool []Expr, rep *Report, fnd *Findings) {
 		var gc GenCase
 		if len(raw) > 0 && raw[0] == '[' {
 			var arr []json.RawMessage
-			if err := json.Unmarshal(raw, &arr); err != nil || len(arr) != 3 {
+			if err := json.Unmarshal(raw, &arr); err != nil || (len(arr) != 3 && len(arr) != 4) {
 				rep.infra("bad compact case")
 				continue
 			}
@@ -155,6 +159,10 @@ func processDocLine(gl *GenLine, pool []Expr, rep *Report, fnd *Findings) {
 			json.Unmarshal(arr[0], &gc.Ctx)
 			json.Unmarshal(arr[1], &ei)
 			json.Unmarshal(arr[2], &gc.R)
+			if len(arr) == 4 {
+				gc.K = &Val{}
+				json.Unmarshal(arr[3], gc.K)
+			}
 			if ei < 1 || ei > len(pool) {
 				rep.infra("pool index out of range")
 				continue
@@ -165,7 +173,24 @@ func processDocLine(gl *GenLine, pool []Expr, rep *Report, fnd *Findings) {
 			continue
 		}
 		cases++
+		env := env
+		envJSON := envJSON
+		if gc.Env != nil {
+			env = gc.Env
+			envJSON, _ = json.Marshal(env)
+		}
 		fails, judged, text := b.judgeExec(gl.Fam, env, gc.Ctx, gc.E, gc.R, baseStyles)
+		if gl.Fam == "C04.nodes" && gc.E.Op == "call" && str(gc.E.Lo) == "string" && len(gc.E.Args) == 0 && gc.R.T == "str" {
+			// the convenience function must agree with string(.)
+			var cs []string
+			json.Unmarshal(gc.R.V, &cs)
+			if c, ok := b.ByID[gc.Ctx]; ok {
+				if got := getCursorStringSafe(c); got != str(cs) {
+					fails = append(fails, Failure{Aspect: "value", Fam: gl.Fam, Text: "GetCursorString(node)", Ctx: gc.Ctx,
+						Detail: fmt.Sprintf("expected %q got %q", str(cs), got)})
+				}
+			}
+		}
 		if !judged && len(fails) == 0 {
 			skipped++
 			continue
@@ -186,7 +211,19 @@ func processDocLine(gl *GenLine, pool []Expr, rep *Report, fnd *Findings) {
 			rep.Samples = append(rep.Samples, map[string]any{"fam": gl.Fam, "doc": gl.Doc, "ctx": gc.Ctx, "xpath": text, "expected": gc.R})
 		}
 		rep.mu.Unlock()
+		knownSwitch := ""
+		if len(fails) > 0 && gc.K != nil {
+			// does the real code show exactly the recorded behaviour of the open known findings?
+			if kf, _, _ := b.judgeExec(gl.Fam, env, gc.Ctx, gc.E, *gc.K, baseStyles); len(kf) == 0 {
+				knownSwitch = fnd.switchID()
+			}
+		}
 		for _, f := range fails {
+			if knownSwitch != "" {
+				f.Finding = knownSwitch
+				rep.addFailure(f, nil)
+				continue
+			}
 			if f.Aspect == "harness" {
 				rep.infra(f.Detail)
 				continue
@@ -264,6 +301,15 @@ func replayStream(in io.Reader, rep *Report, fnd *Findings, workers int) error {
 	wg.Wait()
 	rep.finish()
 	return nil
+}
+
+func getCursorStringSafe(c store_Cursor) (s string) {
+	defer func() {
+		if r := recover(); r != nil {
+			s = fmt.Sprintf("PANIC: %v", r)
+		}
+	}()
+	return xsel.GetCursorString(c)
 }
 
 // families whose lines are not (doc, cases): filled in by other files
